@@ -152,3 +152,66 @@ Theorem C09_serde_messages_unpositioned : forall pre E, parse_line_col (32 :: E)
 Proof. exact (@ErrMsgProps.serde_expected_unpositioned). Qed.
 Print Assumptions C09_serde_messages_unpositioned.
 
+From Coq Require Import String.
+From SJ Require Import Base.Bytes Model.Read Model.Pos Model.ReadAst Gen.ReadTables.
+Require Import Lia ZifyBool ZifyNat ZifyN.
+From SJ Require Import Proofs.ReadSrc.
+Theorem C09_reader_primitives_are_source : forall B : build,
+  let T := READ_TABLE in
+  (* iter.rs: LineColIterator *)
+  (forall t input, run_static B T "LineColIterator" "new" [VSrc t input] = Ok (lci_val t (lci_new input)))
+  /\ (forall t s, run_method B T "LineColIterator" "line" (lci_val t s) [] = Ok (VNum (lci_line s), lci_val t s))
+  /\ (forall t s, run_method B T "LineColIterator" "col" (lci_val t s) [] = Ok (VNum (lci_col s), lci_val t s))
+  /\ (forall t s, run_method B T "LineColIterator" "byte_offset" (lci_val t s) [] = Ok (VNum (lci_byte_offset s), lci_val t s))
+  /\ (forall t s, run_method B T "LineColIterator" "next" (lci_val t s) [] =
+                  Ok (item_val (fst (lci_next t s)), lci_val t (snd (lci_next t s))))
+  (* read.rs: IoRead *)
+  /\ (forall t input, run_static B T "IoRead" "new" [VSrc t input] = Ok (io_val B t None (io_new input)))
+  /\ (forall t rb r, run_method B T "IoRead" "next" (io_val B t rb r) [] =
+                     Ok (ores_val (fst (io_next t r)), io_val B t (rb_push rb (ret_byte (fst (io_next t r)))) (snd (io_next t r))))
+  /\ (forall t rb r, run_method B T "IoRead" "peek" (io_val B t rb r) [] =
+                     Ok (ores_val (fst (io_peek t r)), io_val B t rb (snd (io_peek t r))))
+  /\ (forall t rb r, run_method B T "IoRead" "discard" (io_val B t rb r) [] =
+                     Ok (VUnit, io_val B t (rb_push rb (io_ch r)) (io_discard r)))
+  /\ (forall t rb r, run_method B T "IoRead" "position" (io_val B t rb r) [] = Ok (pos_val (io_position r), io_val B t rb r))
+  /\ (forall t rb r, run_method B T "IoRead" "peek_position" (io_val B t rb r) [] = Ok (pos_val (io_peek_position r), io_val B t rb r))
+  /\ (forall t rb r, run_method B T "IoRead" "byte_offset" (io_val B t rb r) [] = Ok (VNum (io_byte_offset r), io_val B t rb r))
+  (* read.rs: SliceRead *)
+  /\ (forall input, run_static B T "SliceRead" "new" [VBytes input] = Ok (sl_val B 0 (sl_new input)))
+  /\ (forall rbs r i, run_method B T "SliceRead" "position_of_index" (sl_val B rbs r) [VNum (N.of_nat i)] =
+                      (let* p := position_of_index_chk (sl_slice r) i in Ok (pos_val p, sl_val B rbs r)))
+  /\ (forall rbs r, run_method B T "SliceRead" "next" (sl_val B rbs r) [] =
+                    Ok (ores_val (fst (sl_next r)), sl_val B rbs (snd (sl_next r))))
+  /\ (forall rbs r, run_method B T "SliceRead" "peek" (sl_val B rbs r) [] =
+                    Ok (ores_val (fst (sl_peek r)), sl_val B rbs (snd (sl_peek r))))
+  /\ (forall rbs r, run_method B T "SliceRead" "discard" (sl_val B rbs r) [] = Ok (VUnit, sl_val B rbs (sl_discard r)))
+  /\ (forall rbs r, run_method B T "SliceRead" "position" (sl_val B rbs r) [] =
+                    (let* p := sl_position r in Ok (pos_val p, sl_val B rbs r)))
+  /\ (forall rbs r, run_method B T "SliceRead" "peek_position" (sl_val B rbs r) [] =
+                    (let* p := sl_peek_position r in Ok (pos_val p, sl_val B rbs r)))
+  /\ (forall rbs r, run_method B T "SliceRead" "byte_offset" (sl_val B rbs r) [] =
+                    Ok (VNum (N.of_nat (sl_byte_offset r)), sl_val B rbs r))
+  (* read.rs: StrRead *)
+  /\ (forall input, run_static B T "StrRead" "new" [VBytes input] = Ok (str_val B 0 input (sl_new input)))
+  /\ (forall rbs data r, run_method B T "StrRead" "next" (str_val B rbs data r) [] =
+                         Ok (ores_val (fst (sl_next r)), str_val B rbs data (snd (sl_next r))))
+  /\ (forall rbs data r, run_method B T "StrRead" "peek" (str_val B rbs data r) [] =
+                         Ok (ores_val (fst (sl_peek r)), str_val B rbs data (snd (sl_peek r))))
+  /\ (forall rbs data r, run_method B T "StrRead" "discard" (str_val B rbs data r) [] = Ok (VUnit, str_val B rbs data (sl_discard r)))
+  /\ (forall rbs data r, run_method B T "StrRead" "position" (str_val B rbs data r) [] =
+                         (let* p := sl_position r in Ok (pos_val p, str_val B rbs data r)))
+  /\ (forall rbs data r, run_method B T "StrRead" "peek_position" (str_val B rbs data r) [] =
+                         (let* p := sl_peek_position r in Ok (pos_val p, str_val B rbs data r)))
+  /\ (forall rbs data r, run_method B T "StrRead" "byte_offset" (str_val B rbs data r) [] =
+                         Ok (VNum (N.of_nat (sl_byte_offset r)), str_val B rbs data r)).
+Proof. exact (@ReadSrc.reader_primitives_are_translated_source). Qed.
+Print Assumptions C09_reader_primitives_are_source.
+
+Theorem C09_mut_ref_forwards_faithfully : forall e, In e MUT_REF_FORWARD -> fw_target e = fw_name e /\ fw_args e = fw_params e.
+Proof. exact (@ReadSrc.mut_ref_forwards_faithfully). Qed.
+Print Assumptions C09_mut_ref_forwards_faithfully.
+
+Theorem C09_mut_ref_forwards_every_item : map (fun e => (fw_name e, fw_cfg e, fw_kind e)) MUT_REF_FORWARD = READ_TRAIT_ITEMS.
+Proof. exact (@ReadSrc.mut_ref_forwards_every_item). Qed.
+Print Assumptions C09_mut_ref_forwards_every_item.
+
